@@ -97,6 +97,19 @@ theorem conversions_fresh :
     `astwrite:<file>:<function>:<lhs>`.) -/
 theorem ast_readonly : Gen.astWriteFacts = [] := by decide
 
+/-- **cells_never_overwritten.**  No assignment of lib/query stores into an element of an EXISTING cell
+    (`…RecordSet[r][f][0] = v`): cells are shared by every shallow copy of a cached table (open cursors,
+    `DECLARE … VIEW AS SELECT` tables, the transaction's restore point, rows already read), so a new value
+    must arrive as a new cell (`NewCell`).  An offending assignment is reported as
+    `cellwrite:<file>:<function>:<lhs>`. -/
+theorem cells_never_overwritten : Gen.cellWriteFacts = [] := by decide
+
+/-- **scope_closed_once.**  No function hands the current block / node of a scope back to its pool
+    (`CloseCurrentBlock`, `CloseCurrentNode`) and also passes that scope to a callee that does the same: a
+    block put into the pool twice is later issued to two live scopes, which then share their variables.
+    Reported as `doubleclose:<file>:<function>:<scope>.<method>`. -/
+theorem scope_closed_once : Gen.doubleCloseFacts = [] := by decide
+
 /-- Why read-only trees matter (a statement about the MODEL): with an in-place store into the shared
     argument list the select clause no longer finds the function under the identifier registered a
     moment earlier, and the program text has changed (the shape of the repaired defect F8). -/
